@@ -5,6 +5,11 @@
 
 #include "../common/worker.hpp"
 
+#include <fcntl.h>
+#include <signal.h>
+#include <sys/wait.h>
+#include <unistd.h>
+
 using namespace yorel::yomm2;
 using vf::Choice;
 using vf::json;
@@ -24,6 +29,10 @@ struct with_handler {
     }
     static inline int deliveries = 0;
 };
+
+static void sigabrt_probe(int) {
+    _exit(42);
+}
 
 struct dummy_rtti : policy::rtti {
     template<typename T>
@@ -120,6 +129,7 @@ static Outcome run_policy(const json& j) {
     vf::Fnv h;
     h.add(j.at("policy").get<std::string>());
     bool shrink_step = false, collider_found = false, exhausted = false;
+    bool returning_probe = false;
     std::size_t prev_size = 0;
     std::size_t max_ids = 0;
     std::set<type_id> ever_registered; // over the whole history
@@ -335,6 +345,54 @@ static Outcome run_policy(const json& j) {
                     break;
                 }
             }
+            // a handler that *returns*: the id must still not be mapped -
+            // the library aborts rather than continue with an index (in a
+            // forked child; a few probes per step)
+            if (o.ok && js.value("returning_handler", false)) {
+                int forked = 0;
+                for (auto x : probes) {
+                    if (registered.count(x) || x == invalid_type) {
+                        continue;
+                    }
+                    if (++forked > 2) {
+                        break;
+                    }
+                    fflush(nullptr);
+                    pid_t pid = fork();
+                    if (pid == 0) {
+                        int devnull = open("/dev/null", O_WRONLY);
+                        if (devnull >= 0) {
+                            dup2(devnull, 2);
+                        }
+                        signal(SIGABRT, sigabrt_probe);
+                        P::error = [](const error_type&) {}; // returns
+                        try {
+                            P::hash_type_id(x);
+                        } catch (...) {
+                            _exit(44);
+                        }
+                        _exit(45);
+                    }
+                    int status = 0;
+                    waitpid(pid, &status, 0);
+                    int code = WIFEXITED(status) ? WEXITSTATUS(status) : -1;
+                    if (code != 42) {
+                        o.fail("hash-returning-handler: id " +
+                               std::to_string(x) +
+                               " was not registered; the error handler "
+                               "returned and " +
+                               (code == 45
+                                    ? std::string("the id was mapped to index " +
+                                          std::to_string(policy::fast_perfect_hash<
+                                              P>::hash_type_id(x)))
+                                    : "the child ended with status " +
+                                        std::to_string(status)) +
+                               " instead of the program aborting" + at);
+                        break;
+                    }
+                    returning_probe = true;
+                }
+            }
         }
     }
     o.hash = h.h;
@@ -345,6 +403,9 @@ static Outcome run_policy(const json& j) {
     }
     if (collider_found) {
         o.classes.push_back("colliding_unregistered_probe");
+    }
+    if (returning_probe) {
+        o.classes.push_back("unregistered_probe_with_returning_handler");
     }
     if (max_ids >= 100) {
         o.classes.push_back("100+_ids");
@@ -423,6 +484,7 @@ static json gen_hash(Choice& ch, int size) {
                                                 1,      2,      5};
         js["budget"] = budgets[ch.draw(7)];
         js["collider_seed"] = ch.draw64();
+        js["returning_handler"] = ch.chance(1, 10);
         js["probes"] = json::array();
         int np = ch.draw(6);
         for (int p = 0; p < np; ++p) {
@@ -478,6 +540,11 @@ lookup(const std::string& id, const std::string& variant) {
             if (steps[i].value("budget", 100000) != 100000) {
                 json r = j;
                 r["steps"][i]["budget"] = 100000;
+                out.push_back(r);
+            }
+            if (steps[i].value("returning_handler", false)) {
+                json r = j;
+                r["steps"][i]["returning_handler"] = false;
                 out.push_back(r);
             }
             if (!steps[i].at("probes").empty()) {
